@@ -1262,6 +1262,7 @@ WITNESSES = {
     "F-C02-boolop-typed-bool": {"body": "n = 0\nv = n or 5\nmon.write(v)\n", "loops": 0},
     "F-C02-stale-promotion-type": {"body": "mode = 2\nif mode > 1:\n    gain = 1.5\nelse:\n    gain = 0.5\ndef f(p):\n    if p > 1:\n        out = 1\n    else:\n        out = 2\n    return out\ndef g(p):\n    k = 0\n    while k < 2:\n        out = p * 0.5\n        k = k + 1\n    return out\na = f(3)\nb = g(3)\nmon.write(a)\nmon.write(b)\n", "loops": 0},
     "F-C02-param-declared-from-last-label": {"body": "def f(p):\n    q = p * 2\n    p = 1\n    return q\nx = 2.5\na = f(x)\nmon.write(a)\n", "loops": 0},
+    "F-C02-read-before-typed": {"body": "k = 0\nwhile k < 2:\n    if k > 0:\n        b = z\n        mon.write(b)\n    z = 2.5\n    k = k + 1\n", "loops": 0},
     "F-C02-widened-variant-overwritten": {"body": "def blend(a, b):\n    w = a * 2\n    a = a + b\n    return a + w\nx = 0.75\ny = 0.25\np = blend(x, y)\nq = blend(1, y)\nmon.write(p)\nmon.write(q)\n", "loops": 0},
 }
 
@@ -1367,17 +1368,223 @@ def part_d(ctx, stats):
     return len(progs) + values, [srcs[nfixed][len(HEADER):]]
 
 
+# --------------------------------------------------------------------------- part (e): control-flow scripts
+def ctl_plain(pre, main):
+    items = [("stmt", s_) for s_ in pre if s_[0] != "write"]
+    out = [HEADER]
+    render_block(pre, 0, out) if pre else None
+    if main:
+        out.append("while True:\n")
+        render_block(main, 1, out)
+    return "".join(out)
+
+
+def part_e(ctx, stats):
+    """scripts with if / elif / else, while, for at any depth + main loop (harness/c02_ctl.py CtlGen):
+    (1) the reference semantics exec_prog (Lang/StmtRef.v) along the path CPython actually takes = CPython's stores;
+    (2) script_guard (extracted) decides which programs the theorem covers; for those, every value the device prints must be
+        the value CPython holds (firmware under the mock core vs CPython)."""
+    rng = ctx.rng
+    n = 900 if ctx.tier == "thorough" else 60
+    progs, gens = [], []
+    fixed = [
+        # the demo of C02_decl_covers_script_nonvacuous with real conditions
+        ([("assign", "a", "3"), ("write", "a"), ("if", [("a > 1", [("assign", "x", "a * 2.5"), ("write", "x")])], [("assign", "x", "0.5"), ("write", "x")]),
+          ("assign", "k", "0"), ("while", "k < 2", [("assign", "y", "x + k"), ("write", "y"), ("assign", "k", "k + 1")]),
+          ("for", "i", "2", [("assign", "z", "i * 2"), ("write", "z")])],
+         [("assign", "r", "a + 1"), ("write", "r"), ("if", [("r > 3", [("assign", "w", "r * 0.5"), ("write", "w")])], None)], 2),
+        # the witness of C02_read_before_typed_refuted
+        ([("assign", "k", "0"), ("while", "k < 2", [("if", [("k > 0", [("assign", "b", "z"), ("write", "b")])], None), ("assign", "z", "2.5"),
+                                                    ("assign", "k", "k + 1")])], [], 0),
+        ([("assign", "a", "1"), ("assign", "a", "2.5"), ("write", "a")], [], 0),
+        ([("if", [("1 > 2", [("assign", "x", "1")])], [("assign", "x", "2.5")]), ("write", "x")], [], 0),
+    ]
+    for pre, main, passes in fixed:
+        progs.append((pre, main, passes))
+        gens.append(None)
+    for _ in range(n):
+        g = CT.CtlGen(rng, RunGen)
+        progs.append(g.program())
+        gens.append(g)
+    srcs = [ctl_plain(pre, main) for pre, main, _ in progs]
+    instr = [CT.render_instr_script(pre, main, passes) for pre, main, passes in progs]
+    py = C.run_impl("c02_ctl_impl.py", {"cases": [{"src": s_, "calls": []} for s_ in instr]}, timeout=900)
+    st = {"programs": len(progs), "guard_true": 0, "guard_false": 0, "model_rejects": 0, "semantics_compared": 0, "semantics_events": 0,
+          "cpython_raises": {}, "value_oracle": {}, "values_compared": 0, "guard_true_with_nested_store": 0,
+          "reads_for_target_after_its_loop": 0, "deliberate_deviations": sum(g.deviations for g in gens if g),
+          "deviating_programs_inside_guard": 0, "shapes": {}}
+    for g in gens:
+        if g:
+            for k, v in g.shapes.items():
+                st["shapes"][k] = st["shapes"].get(k, 0) + v
+    guard = [None] * len(progs)
+    if ctx.exe:
+        gw = ctx.model([[10, MODEL_CTX, wire_block(pre), wire_block(main)] for pre, main, _ in progs])
+        sem_cases = []
+        for k, ((pre, main, passes), p) in enumerate(zip(progs, py)):
+            sem_cases.append([11, wire_block(pre), wire_block(main), [int(x) for x in p.get("oracle", [])]])
+        sw = ctx.model(sem_cases)
+        for k, ((pre, main, passes), p, gm, sm) in enumerate(zip(progs, py, gw, sw)):
+            if gm == [2] or sm == [2]:
+                ctx.disagree("ctl: model cannot decode the case (harness codec)", srcs[k][len(HEADER):], gm, sm)
+                continue
+            guard[k] = bool(gm[0]) and bool(gm[1])
+            st["guard_true" if guard[k] else "guard_false"] += 1
+            if not guard[k] and gens[k] is not None and not gens[k].deviations:
+                st["guard_false_without_a_deliberate_deviation"] = st.get("guard_false_without_a_deliberate_deviation", 0) + 1
+            if not gm[1]:
+                st["model_rejects"] += 1
+            if "exc" in p:
+                st["cpython_raises"][p["exc"]] = st["cpython_raises"].get(p["exc"], 0) + 1
+            if CT.reads_loopvar_after(pre) or CT.reads_loopvar_after(main):
+                st["reads_for_target_after_its_loop"] += 1          # outside the fragment of StmtRef.v (never generated)
+                continue
+            why = CT.compare_traces(sm, p, W, C)
+            st["semantics_compared"] += 1
+            st["semantics_events"] += len(p.get("trace", []))
+            if why is not None:
+                ctx.disagree("reference semantics (Lang/StmtRef.v exec_prog) vs CPython: " + why,
+                             {"script": srcs[k][len(HEADER):], "oracle": p.get("oracle"), "passes": passes}, sm, p)
+    # value oracle on the programs the extracted guard accepts
+    idx = [k for k in range(len(progs)) if guard[k]]
+    nontrivial = set()
+    if idx:
+        res = run_value_pairs([srcs[k] for k in idx], ["" for _ in idx], [progs[k][2] for k in idx])
+        for k, r in zip(idx, res):
+            st["value_oracle"][r["status"]] = st["value_oracle"].get(r["status"], 0) + 1
+            case = {"script": srcs[k], "input": "", "loops": progs[k][2]}
+            if gens[k] is not None and gens[k].deviations:
+                st["deviating_programs_inside_guard"] += 1
+            if r["status"] == "DIFF":
+                ctx.fail("a value on the device differs from the value CPython holds (control-flow script inside script_guard)", case,
+                         r["py"], {"first_difference": r["diff"], "firmware": r["fw"], "cpp": r["cpp"]}, key="value-diff-ctl")
+            elif r["status"] == "rejected":
+                ctx.disagree("ctl: the model parses the script (and the guard holds), the real transpiler rejects it", srcs[k][len(HEADER):], "accepted", r)
+            elif r["status"] == "fw-crash":
+                ctx.fail("firmware crashed", case, "rc 0", r, key="fw-crash-ctl")
+            elif r["status"] == "equal":
+                st["values_compared"] += r["n_values"]
+                if r["n_values"] >= 4:
+                    nontrivial.add(srcs[k])
+                if gens[k] is not None and gens[k].shapes["store_in_nested_block"]:
+                    st["guard_true_with_nested_store"] += 1
+    stats["control_flow_scripts"] = st
+    stats["ctl_distinct_nontrivial"] = len(nontrivial)
+    return len(progs) + st["semantics_events"] + st["values_compared"], [srcs[len(fixed)][len(HEADER):]]
+
+
+# --------------------------------------------------------------------------- part (f): helper bodies
+def fn_plain(name, params, body, calls):
+    out = [HEADER, f"def {name}({', '.join(params)}):\n"]
+    render_block(body, 1, out)
+    top = []
+    for j, (sig, vals) in enumerate(calls):
+        args = []
+        for i, (k, v) in enumerate(zip(sig, vals)):
+            x = f"x{j}_{i}"
+            top.append(("assign", x, repr(v)))
+            args.append(x)
+        top.append(("assign", f"r{j}", f"{name}({', '.join(args)})"))
+        top.append(("write", f"r{j}"))
+    render_block(top, 0, out)
+    return "".join(out), top
+
+
+def part_f(ctx, stats):
+    """one generated helper per program (harness/c02_ctl.py FnBodyGen): assignments before returns, returns nested in if / for /
+    while, hoisted locals; called under 2-3 signatures.  (1) exec_block on the body from the bound parameters along CPython's
+    path = CPython's stores and returned value; (2) fn_guard (extracted) per call signature; when every signature is inside the
+    guard the device must print what CPython returns."""
+    rng = ctx.rng
+    n = 500 if ctx.tier == "thorough" else 36
+    progs = []
+    fixed_body = [("assign", "w", "p * 2"), ("if", [("w > 100", [("return", "w")])], None),
+                  ("for", "i", "2", [("if", [("i > 0", [("return", "q + 0.5")])], None), ("assign", "w", "w + i")]), ("return", "w")]
+    progs.append(("f", ["p", "q"], fixed_body, [(["int", "float"], [3, 0.5]), (["float", "float"], [2.5, 0.5])], None))
+    for _ in range(n):
+        g = CT.FnBodyGen(rng, RunGen)
+        name, params, body, calls = g.program()
+        progs.append((name, params, body, calls, g))
+    plain = [fn_plain(name, params, body, calls) for name, params, body, calls, _ in progs]
+    instr = [{"src": CT.render_instr_def(name, params, body), "calls": [[name, vals] for _, vals in calls]}
+             for name, params, body, calls, _ in progs]
+    py = C.run_impl("c02_ctl_impl.py", {"cases": instr}, timeout=900)
+    st = {"programs": len(progs), "variants": 0, "variants_inside_fn_guard": 0, "variants_unparsable": 0, "calls_compared": 0, "events_compared": 0,
+          "cpython_raises": {}, "programs_all_variants_inside": 0, "value_oracle": {}, "values_compared": 0,
+          "returns": sum(g.returns for *_x, g in progs if g), "returns_nested_in_a_block": sum(g.nested_returns for *_x, g in progs if g)}
+    all_in = [False] * len(progs)
+    if ctx.exe:
+        gcases, scases, owner = [], [], []
+        for k, ((name, params, body, calls, _), (src, top), p) in enumerate(zip(progs, plain, py)):
+            items = [("def", name, params, body)]
+            for j, (sig, vals) in enumerate(calls):
+                pre_top = []
+                for st_ in top:
+                    if st_[0] == "assign" and st_[1] == f"r{j}":
+                        break
+                    if st_[0] == "assign":
+                        pre_top.append(("stmt", st_))
+                gcases.append([12, MODEL_CTX, wire_items(items + pre_top), name, [enc_label(x) for x in sig]])
+                pc = p["calls"][j] if p.get("calls") and j < len(p["calls"]) else {"exc": p.get("exc", "setup")}
+                scases.append([13, wire_block(body), [int(x) for x in pc.get("oracle", [])],
+                               [[pn, W.enc_val(Fraction(v) if isinstance(v, float) else v)] for pn, v in zip(params, vals)]])
+                owner.append((k, j, pc))
+        gw = ctx.model(gcases)
+        sw = ctx.model(scases)
+        inside = {}
+        for (k, j, pc), gm, sm in zip(owner, gw, sw):
+            st["variants"] += 1
+            if gm == [2] or sm == [2]:
+                ctx.disagree("fn: model cannot decode the case (harness codec)", plain[k][0][len(HEADER):], gm, sm)
+                continue
+            inside.setdefault(k, []).append(bool(gm[0]))
+            st["variants_inside_fn_guard"] += bool(gm[0])
+            st["variants_unparsable"] += (not gm[1])
+            if "exc" in pc:
+                st["cpython_raises"][pc["exc"]] = st["cpython_raises"].get(pc["exc"], 0) + 1
+            why = CT.compare_traces(sm, pc, W, C)
+            st["calls_compared"] += 1
+            st["events_compared"] += len(pc.get("trace", []))
+            if why is not None:
+                ctx.disagree("reference semantics (Lang/StmtRef.v exec_block) vs CPython on a helper body: " + why,
+                             {"script": plain[k][0][len(HEADER):], "call": progs[k][3][j], "oracle": pc.get("oracle")}, sm, pc)
+        for k, v in inside.items():
+            all_in[k] = all(v) and len(v) == len(progs[k][3])
+    idx = [k for k in range(len(progs)) if all_in[k]]
+    st["programs_all_variants_inside"] = len(idx)
+    nontrivial = set()
+    if idx:
+        res = run_value_pairs([plain[k][0] for k in idx], ["" for _ in idx], [0 for _ in idx])
+        for k, r in zip(idx, res):
+            st["value_oracle"][r["status"]] = st["value_oracle"].get(r["status"], 0) + 1
+            case = {"script": plain[k][0], "input": "", "loops": 0}
+            if r["status"] == "DIFF":
+                ctx.fail("a helper returns another value on the device than under CPython (every call signature inside fn_guard)", case,
+                         r["py"], {"first_difference": r["diff"], "firmware": r["fw"], "cpp": r["cpp"]}, key="value-diff-fnbody")
+            elif r["status"] == "fw-crash":
+                ctx.fail("firmware crashed", case, "rc 0", r, key="fw-crash-fnbody")
+            elif r["status"] == "equal":
+                st["values_compared"] += r["n_values"]
+                if r["n_values"] >= 2:
+                    nontrivial.add(plain[k][0])
+    stats["helper_bodies"] = st
+    stats["fnbody_distinct_nontrivial"] = len(nontrivial)
+    return len(progs) + st["events_compared"] + st["values_compared"], [plain[1][0][len(HEADER):]]
+
+
 def run(ctx: C.Ctx):
     stats = {}
     n = part_a(ctx, stats)
     nb, samples_b = part_b(ctx, stats)
     nc, samples_c = part_c(ctx, stats)
     nd, samples_d = part_d(ctx, stats)
+    ne, samples_e = part_e(ctx, stats)
+    nf, samples_f = part_f(ctx, stats)
     ctx.coverage.update({
-        "evaluations": n + nb + nc + nd,
-        "distinct_nontrivial": stats.get("infer_distinct_nontrivial", 0) + stats.get("decl_distinct_nontrivial", 0) + stats.get("value_distinct_nontrivial", 0) + stats.get("function_distinct_nontrivial", 0),
+        "evaluations": n + nb + nc + nd + ne + nf,
+        "distinct_nontrivial": stats.get("infer_distinct_nontrivial", 0) + stats.get("decl_distinct_nontrivial", 0) + stats.get("value_distinct_nontrivial", 0) + stats.get("function_distinct_nontrivial", 0) + stats.get("ctl_distinct_nontrivial", 0) + stats.get("fnbody_distinct_nontrivial", 0),
         "distribution": stats,
-        "samples": samples_b[:1] + samples_c + samples_d,
+        "samples": samples_b[:1] + samples_c + samples_d + samples_e + samples_f,
         "rule": ("(a) _infer_expr_type: ~115 fixed boundary expressions (every clause of the model, with/without ctx, with generated var_types / "
                  "functions / aliases / device-name sets) + seeded random typed expressions (depth 1-4, all node kinds incl. calls to user functions, "
                  "methods, lists, subscripts, f-strings, unsupported nodes) + the shared Lang generator; compared: label, ValueError, and the MUTATED "
